@@ -135,17 +135,17 @@ pub fn ceval(e: &E) -> Result<CV, Rej> {
 }
 
 #[derive(Clone, Copy, PartialEq, Eq, Debug)]
-enum K {
+pub enum K {
     Int,
     Double,
     Str,
     Bool,
 }
 
-struct G<'c, 'a> {
-    ch: &'c mut Chooser<'a>,
+pub struct G<'c, 'a> {
+    pub ch: &'c mut Chooser<'a>,
     /// aim at undefined values
-    undefined: bool,
+    pub undefined: bool,
 }
 
 impl G<'_, '_> {
@@ -161,7 +161,7 @@ impl G<'_, '_> {
         E::Int(v as i64, s)
     }
 
-    fn expr(&mut self, k: K, depth: usize) -> E {
+    pub fn expr(&mut self, k: K, depth: usize) -> E {
         let leaf = depth == 0 || self.ch.chance(1, 3);
         let e = match k {
             K::Int => {
